@@ -5,6 +5,9 @@ import JoblibModel.IOUtil
 Requests
 * `open HEX L1 L2 …`     open for reading: payload (`-` = empty) and the lengths of the decompressed chunks
                          `_fill_buffer` sees (must sum to the payload length) → `ok`
+                         HEX may also be a compact description `@LEN*PAT,LEN*PAT,…` (segments; each is the
+                         non-empty hex pattern PAT repeated cyclically up to LEN bytes), so that payloads of
+                         megabytes (long runs, periodic data) cost a short request line
 * `read N` | `readinto N` | `readline` | `tell` | `seek OFF WHENCE` | `close`
 * `wopen HEX`            open for writing; HEX = the bytes the following writes slice from → `ok`
 * `write OFF LEN`        `write(payload[OFF:OFF+LEN])`
@@ -28,8 +31,27 @@ def parseHexList : List Char → Option Bytes
     pure (UInt8.ofNat (16 * x + y) :: rest)
   | _ => none
 
+/-- `pat` repeated cyclically up to `n` bytes. -/
+def cycleBytes (pat : Array UInt8) (n : Nat) : Bytes := Id.run do
+  let mut a : Array UInt8 := Array.mkEmpty n
+  for i in [0:n] do
+    a := a.push pat[i % pat.size]!
+  return a.toList
+
+/-- One segment `LEN*PAT` of a compact payload description. -/
+def parseSeg (s : String) : Option Bytes :=
+  match s.splitOn "*" with
+  | [n, pat] => do
+    let n ← n.toNat?
+    let p ← parseHexList pat.toList
+    if p.isEmpty then none else pure (cycleBytes p.toArray n)
+  | _ => none
+
 def parseHex (s : String) : Option Bytes :=
-  if s = "-" then some [] else parseHexList s.toList
+  if s = "-" then some []
+  else if s.startsWith "@" then
+    ((s.drop 1).toString.splitOn ",").foldlM (fun (acc : Bytes) seg => (parseSeg seg).map (acc ++ ·)) []
+  else parseHexList s.toList
 
 def hexDigit (n : Nat) : Char :=
   if n < 10 then Char.ofNat ('0'.toNat + n) else Char.ofNat ('a'.toNat + n - 10)
